@@ -14,6 +14,6 @@ git -C $WT apply $D/patch.diff || { echo "patch does not apply"; git -C /repo wo
 echo "demo with change:   exit $(rundemo)"
 if [[ -z "$NOSUITE" ]]; then (cd $WT && PYTHONPATH=$WT /venv/bin/python -m pytest -q -p no:cacheprovider --timeout=900 --continue-on-collection-errors 2>&1 | tail -1); fi
 for p in $P; do
-  (cd $VROOT && VERIF_REPO=$WT PYTHONPATH=$WT ./check $p --tier $TIER 2>&1 | grep -v conda | tail -4)
+  (cd $VROOT && VERIF_REPO=$WT PYTHONPATH=$WT ./check $p --tier $TIER 2>&1 | grep "^VIOLATION\|^\[C[0-9][0-9]\]\|^KNOWN-FINDING\|internal error" | tail -6)
 done
 git -C /repo worktree remove --force $WT
